@@ -33,7 +33,9 @@ Inductive mev :=
 | MSrc (off : nat) (data : list N)
 | MCopy (i : nat)                              (* the whole file and its .meta *)
 | MCloneInfo (rev : N)
+| MCloneInfoFail (stage : nat) (rev : N)       (* obstructed: the step reports its failure *)
 | MReload
+| MReloadFail                                  (* Server.Reload failed (volume.meta not writable): nothing changes *)
 | MUlm (mid : list (nat * list N))             (* UpdateLUNMap; [mid] lands after the preload, before the merge *)
 | MUlmRace (ws : list (nat * list N)).         (* UpdateLUNMap against a free writer: serialised writes-first *)
 
@@ -50,7 +52,9 @@ Definition expand_mev (s : rb) (m : mev) : list ev :=
   | MSrc off data => [SrcWrite off data]
   | MCopy i => [Copy i (seq 0 (nblk (src s)))]
   | MCloneInfo rev => [CloneInfo rev]
+  | MCloneInfoFail stage rev => [CloneInfoFail stage rev]
   | MReload => [DstReload]
+  | MReloadFail => []
   | MUlm mid => UlmBegin :: ulm_pre_all (dst s) ++ map bw mid ++ [UlmMerge]
   | MUlmRace ws => map bw ws ++ ulm_all (dst s)
   end.
@@ -110,6 +114,8 @@ Record rcase := mkrcase {
   rc_snap : N;                  (* clone: the name of S *)
   rc_ev : list mev;
   rc_tbl : list rle; rc_src : rside; rc_dst : rside;
+  rc_completed : bool;          (* on the implementation every step reported success (a failed one was repeated
+                                   successfully) and the flow ran to its end *)
   rc_rev : N;                   (* observed revision counter of the destination *)
   rc_snaprev : N                (* revision counter recorded for S on the source *)
 }.
@@ -214,7 +220,7 @@ Definition c19_oracle (K : nat) (name : N) (expect : list N) (rev snaprev : N) (
 
 (** ** comparison model / implementation
     codes: 1 live 2 fresh 3 chain 4 attributes 5 snapshot images 6 extents 7 size; +10 for the destination;
-    21 revision counter *)
+    21 revision counter; 22 the flow stopped on one side and ran to its end on the other *)
 Definition side_diff (a b : side) : nat :=
   if negb (listN_eqb (sd_live a) (sd_live b)) then 1
   else if negb (listN_eqb (sd_fresh a) (sd_fresh b)) then 2
@@ -231,7 +237,8 @@ Definition is_unaligned (K : nat) (w : nat * list N) : bool :=
   negb ((fst w mod K =? 0) && ((fst w + length (snd w)) mod K =? 0)).
 
 (** further coverage bits (from the case itself):  64 forked destination   128 unaligned write before the
-    Reload   256 unaligned write after it   512 an automatic snapshot reads differently on the two sides *)
+    Reload   256 unaligned write after it   512 an automatic snapshot reads differently on the two sides
+    1024 a step failed and the flow stopped   2048 a step failed and was repeated *)
 Fixpoint unaligned_split (K : nat) (ms : list mev) (after : bool) : bool * bool :=
   match ms with
   | [] => (false, false)
@@ -243,28 +250,55 @@ Fixpoint unaligned_split (K : nat) (ms : list mev) (after : bool) : bool * bool 
       if after then (a, b || u) else (a || u, b)
   end.
 
+(** does the flow the model predicts run to its end?  a failed step must have been repeated successfully *)
+Fixpoint flow_ok (ms : list mev) (ci rl : bool) : bool :=
+  match ms with
+  | [] => negb ci && negb rl
+  | MCloneInfoFail _ _ :: r => flow_ok r true rl
+  | MCloneInfo _ :: r => flow_ok r false rl
+  | MReloadFail :: r => flow_ok r ci true
+  | MReload :: r => flow_ok r ci false
+  | _ :: r => flow_ok r ci rl
+  end.
+
+(** what the destination serves: after its Reload the chain the directory holds, before it its own chain *)
+Definition observe_dst (K : nat) (s : rb) : side :=
+  if reloaded s then observe_side K (dst s)
+  else let v := own_view (lowc s) (wired s) (dst s) in
+       let lv := fst (read_all K v) in mkside lv lv [] [] [] [] (nblk v).
+
+Definition lite_diff (a b : side) : nat :=
+  if negb (listN_eqb (sd_live a) (sd_live b)) then 1 else if negb (sd_nblk a =? sd_nblk b) then 7 else 0.
+
+Definition case_oracle (K : nat) (c : rcase) (completed : bool) (rev : N) (os od : side) : bool :=
+  if negb completed then true            (* a step reported its failure and the flow stopped: nothing is claimed *)
+  else if rc_clone c
+  then c19_oracle K (rc_snap c) (flat K (rc_nb c) (writes_of (before_snap (rc_pre c) (rc_snap c))))
+                  rev (rc_snaprev c) os od
+  else c07_oracle K (flat K (rc_nb c) (writes_of (rc_pre c) ++ ev_writes (rc_ev c))) os od.
+
 Definition check_rcase_v (fx : bool) (c : rcase) : rverdict :=
   let K := rc_K c in
   let tbl := map unrle (rc_tbl c) in
   let os := expand_side tbl (rc_src c) in
   let od := expand_side tbl (rc_dst c) in
   let '(s, fl0) := exec fx K (init_case fx c) (rc_ev c) in
+  let mdone := flow_ok (rc_ev c) false false in
   let ms := observe_side K (src s) in
-  let md := observe_side K (dst s) in
+  let md := observe_dst K s in
   let ds := side_diff ms os in
-  let dd_ := side_diff md od in
-  let diff := if negb (ds =? 0) then ds else if negb (dd_ =? 0) then 10 + dd_
+  let dd_ := if mdone then side_diff md od else lite_diff md od in
+  let diff := if negb (Bool.eqb mdone (rc_completed c)) then 22
+              else if negb (ds =? 0) then ds else if negb (dd_ =? 0) then 10 + dd_
               else if N.eqb (drev s) (rc_rev c) || negb (rc_clone c) then 0 else 21 in
-  let orc :=
-    if rc_clone c
-    then c19_oracle K (rc_snap c) (flat K (rc_nb c) (writes_of (before_snap (rc_pre c) (rc_snap c))))
-                    (rc_rev c) (rc_snaprev c) os od
-    else c07_oracle K (flat K (rc_nb c) (writes_of (rc_pre c) ++ ev_writes (rc_ev c))) os od in
+  let orc := case_oracle K c (rc_completed c) (rc_rev c) os od in
   let '(ua, ub) := unaligned_split K (rc_ev c) false in
   let autodiff := negb (list_eqb listN_eqb (sd_snaps ms) (sd_snaps md)) in
   mkrverdict diff orc
              (bits (orl fl0 [false; false; false; false; false; false;
-                             match rc_fork c with Some _ => true | None => false end; ua; ub; autodiff]) 1).
+                             match rc_fork c with Some _ => true | None => false end; ua; ub; autodiff;
+                             negb mdone;
+                             existsb (fun m => match m with MCloneInfoFail _ _ | MReloadFail => true | _ => false end) (rc_ev c) && mdone]) 1).
 
 (** (case index, difference code, oracle) of every case that differs or fails; and the coverage words *)
 Fixpoint bad_rcases_v (fx : bool) (i : nat) (cs : list rcase) : list (nat * nat * nat) :=
@@ -291,9 +325,4 @@ Definition rcoverage := rcoverage_v code_variant.
 Definition model_oracle (fx : bool) (c : rcase) : bool :=
   let K := rc_K c in
   let '(s, _) := exec fx K (init_case fx c) (rc_ev c) in
-  let ms := observe_side K (src s) in
-  let md := observe_side K (dst s) in
-  if rc_clone c
-  then c19_oracle K (rc_snap c) (flat K (rc_nb c) (writes_of (before_snap (rc_pre c) (rc_snap c))))
-                  (drev s) (rc_snaprev c) ms md
-  else c07_oracle K (flat K (rc_nb c) (writes_of (rc_pre c) ++ ev_writes (rc_ev c))) ms md.
+  case_oracle K c (flow_ok (rc_ev c) false false) (drev s) (observe_side K (src s)) (observe_dst K s).
